@@ -2,7 +2,7 @@
    What acceptance by Program::new (Build.build_program) guarantees, over the statement list.
    Proofs live in BuildProofs.v. *)
 From HclV Require Import Base Expr ExprSpec Machine Graph Build MachineSpec SchedSpec BuildSpec Generated BuildProofs CompleteSpec CompleteProofs.
-From HclV Require FaultDiagSpec FaultDiagProofs.
+From HclV Require FaultDiagSpec FaultDiagProofs DiagSpec DiagProofs.
 Open Scope string_scope.
 Open Scope list_scope.
 Open Scope N_scope.
@@ -199,3 +199,17 @@ Print Assumptions C09_first_pass_faults_are_diagnosed.
 Print Assumptions C09_bank_and_unset_faults_are_diagnosed.
 Print Assumptions C09_component_and_undeclared_faults_are_diagnosed.
 Print Assumptions C09_rejection_is_one_pass_answer.
+
+(* ---- "... with a diagnostic NAMING the wire": the text of the diagnostic (DiagSpec.v: the model
+   of Error::format_for_contents) contains every name the error carries between single quotes -
+   for every variant about a wire, register or bank; the only exception, a list of three or more
+   names (quotes lost), cannot arise with the built-in components, which have at most three inputs *)
+Theorem C09_diagnostic_text_names_the_wire :
+  DiagSpec.stmt_names_the_wire /\ DiagSpec.stmt_names_the_token /\ DiagSpec.stmt_three_names_unquoted /\
+  DiagSpec.stmt_fixed_inputs_at_most_three.
+Proof.
+  split; [exact DiagProofs.names_the_wire_holds |].
+  split; [exact DiagProofs.names_the_token_holds |].
+  split; [exact DiagProofs.three_names_unquoted_holds | exact DiagProofs.fixed_inputs_at_most_three_holds].
+Qed.
+Print Assumptions C09_diagnostic_text_names_the_wire.
